@@ -221,10 +221,11 @@ for _k, _t in _EXTRA.items():
 
 # additions of the third session: history-level theorems resting on the signer-aware call-tree induction, monitor refinements
 _EXTRA3 = {
- "C08": "OVER HISTORIES (PositionsSafe.v, C08_positions_survive_other_peoples_histories / ..._in_every_reachable_world): through ANY history of operations none of which is signed by the owner o (a user address, not one of the four contracts) - every call between the contracts, the pool manager locking LP for depositors, replies, rejected operations, injected faults - every position of o survives with the same identifier, owner, LP denom, unlocking duration, open/closed state and unlock instant and with AT LEAST its recorded amount (others can only add, through the pool manager, to an open position); a closed position does not change at all, hence its owner can withdraw it in full from the unlock instant on, however long the others' history (C08_closed_position_still_withdrawable_after_any_history_of_others). Proved by an induction over call trees that tracks who signed the transaction (inside a transaction signed by s every message is sent by s or by one of the four contracts). Kernel-evaluated example: C08_positions_example.",
+ "C08": "OVER HISTORIES (PositionsSafe.v, C08_positions_survive_other_peoples_histories / ..._in_every_reachable_world): through ANY history of operations none of which is signed by the owner o (a user address, not one of the four contracts) - every call between the contracts, the pool manager locking LP for depositors, replies, rejected operations, injected faults - every position of o survives with the same identifier, owner, LP denom, unlocking duration, open/closed state and unlock instant and with AT LEAST its recorded amount (others can only add, through the pool manager, to an open position); a closed position does not change at all, hence its owner can withdraw it in full from the unlock instant on, however long the others' history (C08_closed_position_still_withdrawable_after_any_history_of_others). Proved by an induction over call trees that tracks who signed the transaction (inside a transaction signed by s every message is sent by s or by one of the four contracts). Kernel-evaluated example: C08_positions_example. And the withdrawal TRANSACTION of such a position succeeds in every reachable world (C08_closed_position_withdrawal_transaction_succeeds, from the C05 custody invariant).",
  "C15": "OVER HISTORIES (OwnersOnly.v, C15_only_the_owner_changes_ownership_and_configuration): while a contract's ownership is settled (an owner o, a user address, and no transfer pending) NO history of operations that o does not sign changes that contract's ownership record or configuration - epoch manager and fee collector: the whole state; pool manager: ownership record and configuration (fee collector, farm manager, creation fee); farm manager: ownership record and configuration - with every call between the contracts, replies, rejected operations and injected faults. The per-pool feature switches likewise (SwitchesSafe.v, C15_switches_move_only_by_the_owner): while the pool manager's ownership is settled, through any history its owner does not sign every pool keeps its three switches exactly as they are. Kernel-evaluated example: C15_owners_example (every privileged message of every contract attempted by non-owners).",
  "C17": "OVER HISTORIES (SwitchesSafe.v, C17_switches_move_only_by_the_owner): while the pool manager's ownership is settled (owner o, no transfer pending), through ANY history of operations that o does not sign - swaps, routes, deposits, withdrawals, pool creations, attempts at privileged messages, calls between the contracts, replies, rejected operations, injected faults - every pool keeps its three feature switches exactly as they are: what the owner disabled stays disabled (so the blocking theorems keep applying), what is enabled stays enabled. Kernel-evaluated example: C17_switches_example.",
  "C11": "OVER HISTORIES (FarmsSafe.v, C11_others_cannot_touch_a_farm / ..._in_any_reachable_world): through ANY history of operations none of which is signed by o (a user address) - every call between the contracts, replies, rejected operations, injected faults - every farm owned by o in the final world was already his at the start, with the same identifier, LP denom, reward denom and budget, emission rate, start and end; only the claimed amount may have grown. Nobody else can create a farm in his name, expand or otherwise alter it (it may only disappear: closed by the contract owner or swept on expiry, refunding o). Kernel-evaluated example: C11_farms_example.",
+ "C05": "THE 'HENCE' (Redeemable.v, C05_closed_position_withdrawal_transaction_succeeds): in every world reachable from genesis with no fault being injected, the withdrawal TRANSACTION of a closed position whose unlock instant has been reached, sent by its owner, SUCCEEDS - the handler accepts it and the farm manager's balance covers the transfer of the whole recorded amount (side conditions of a real bank: the owner is not the farm manager, his balance is non-negative and stays within u128). Kernel-evaluated example: C05_redeem_example. The analogous success statement for farm refunds is not proved (a failing refund is tolerated by design, C20).",
  "C09": "Monitor mon_C09 also checks the split on the implementation: after an accepted emergency withdrawal the penalty goes only to the configured fee collector and to owners of farms on that LP denom, in EQUAL shares per distinct owner, nobody loses anything, and what leaves the farm manager is exactly payout + shares and at most the recorded amount.",
  "C14": "Monitor mon_C14s also checks on the implementation that an accepted single-asset deposit creates or changes only positions owned by its sender, and that a requested lock produces such a position.",
 }
